@@ -18,13 +18,14 @@ import (
 //	op [1, size, pad]  DATA frame, Length=size, pad bytes of padding   obs [connWU, err, streamWU, snap...]
 //	op [2, n]          requestRead(n)  (adjustWindow)                   obs [streamWU, snap...]
 //	op [3, k]          updateWindow(k) (application consumed k bytes)   obs [streamWU, snap...]
-//	op [4, n]          updateFlowControl(n) (BDP estimate)              obs [connWU, settingsVal, snap...]
+//	op [4, n]          updateFlowControl(n) (BDP estimate)              obs [connWU, #conn WU items, settingsVal, snap...]
 //	op [5]             BDP ping: trInFlow.reset()                       obs [connWU, snap...]
 //	snap = limit, pendingData, pendingUpdate, delta, conn limit, conn unacked
 type vInFlowSim struct {
-	t    *http2Server
-	s    *ServerStream
-	done chan struct{}
+	t         *http2Server
+	s         *ServerStream
+	done      chan struct{}
+	connItems int64 // connection-level outgoingWindowUpdate items seen by the last drain
 }
 
 func vInFlowNew(cfg []int64) *vInFlowSim {
@@ -53,6 +54,7 @@ func vInFlowNew(cfg []int64) *vInFlowSim {
 
 // drain empties the control buffer and classifies what the loopy writer would send.
 func (m *vInFlowSim) drain() (connWU, streamWU, rstFC, settings int64) {
+	m.connItems = 0
 	for {
 		it, err := m.t.controlBuf.get(false)
 		if err != nil || it == nil {
@@ -61,6 +63,7 @@ func (m *vInFlowSim) drain() (connWU, streamWU, rstFC, settings int64) {
 		switch v := it.(type) {
 		case *outgoingWindowUpdate:
 			if v.streamID == 0 {
+				m.connItems++
 				connWU += int64(v.increment)
 			} else {
 				streamWU += int64(v.increment)
@@ -136,7 +139,7 @@ func (m *vInFlowSim) apply(op []int64) []int64 {
 	case op[0] == 4 && len(op) == 2:
 		m.t.updateFlowControl(uint32(op[1]))
 		cwu, _, _, set := m.drain()
-		return vCat([]int64{cwu, set}, m.snap())
+		return vCat([]int64{cwu, m.connItems, set}, m.snap())
 	case op[0] == 5 && len(op) == 1:
 		w := m.t.fc.reset()
 		return vCat([]int64{int64(w)}, m.snap())
@@ -234,6 +237,17 @@ func vInFlowGen(r *vRand, tier string, idx int) ([]int64, [][]int64) {
 	case 2:
 		// clamp of maybeAdjust at a large static window
 		return []int64{maxW - 10, maxW}, [][]int64{{2, 4294967295}, {1, 16384, 5}, {3, 16379}, {5}}
+	case 3:
+		// finding witness: configured connection window above the first BDP estimate
+		// (InitialConnWindowSize(1<<20), dynamic window on): uint32 underflow of n - limit
+		return []int64{65535, 1 << 20}, [][]int64{{1, 16384, 0}, {4, 131070}, {1, 16384, 0}}
+	case 4:
+		// finding witness: configured stream window above the BDP estimate: SETTINGS decrease
+		// while pendingUpdate (< old limit/4) exceeds the new limit -> negative window, nothing to read
+		return []int64{1 << 20, 65535}, [][]int64{{1, 200000, 0}, {2, 200000}, {3, 200000}, {4, 131070}, {2, 5}, {5}}
+	case 5:
+		// BDP estimate equal to the configured connection window: increment 0
+		return []int64{65535, 131070}, [][]int64{{4, 131070}, {5}}
 	}
 	// configuration
 	var l, cl int64
@@ -246,6 +260,9 @@ func vInFlowGen(r *vRand, tier string, idx int) ([]int64, [][]int64) {
 		l, cl = r.PickI64(maxW, maxW-1, maxW-65535, 1<<30), r.PickI64(maxW, 1<<30, 65535)
 	case 3:
 		l, cl = int64(65535+r.Intn(1<<20)), int64(65535+r.Intn(1<<20))
+	case 4:
+		// configured windows with the dynamic window still on
+		l, cl = r.PickI64(65535, 1<<20, 1<<22), r.PickI64(65535, 65535, 1<<20)
 	default:
 		l, cl = 65535, 65535
 	}
@@ -332,12 +349,15 @@ func vInFlowGen(r *vRand, tier string, idx int) ([]int64, [][]int64) {
 			}
 			g.do([]int64{3, k})
 		case c < 97:
-			if g.lim < 1<<24 && g.m.t.fc.limit < 1<<24 && r.Chance(60) {
+			if r.Chance(12) {
+				// what bdpEstimator really produces first: a value near 2*65535, whatever is configured
+				g.do([]int64{4, 86506 + r.I64n(200000)})
+			} else if g.lim < 1<<24 && g.m.t.fc.limit < 1<<24 && r.Chance(60) {
 				lo := g.lim
 				if int64(g.m.t.fc.limit) > lo {
 					lo = int64(g.m.t.fc.limit)
 				}
-				n := lo + r.I64n(vInFlowMin(2*lo, 1<<24)-lo+1)
+				n := lo + 1 + r.I64n(vInFlowMin(2*lo, 1<<24)-lo)
 				if n > 1<<24 {
 					n = 1 << 24
 				}
